@@ -55,12 +55,19 @@ type Segment struct {
 func (s *Segment) WriteTo(w io.Writer, _ chan struct{}) (int64, error) {
 	bw := bufio.NewWriter(w)
 
-	n, err := s.data.WriteTo(w)
+	// The CRC in the footer continues the CRC of the data bytes, so compute
+	// that while writing them. s.footer.crc cannot serve as the seed: for a
+	// loaded segment it is the value read from the file, which already covers
+	// the footer fields as well.
+	cw := newCountHashWriter(w)
+	n, err := s.data.WriteTo(cw)
 	if err != nil {
 		return n, fmt.Errorf("error persisting segment: %w", err)
 	}
 
-	err = persistFooter(s.footer, bw)
+	footer := *s.footer
+	footer.crc = cw.Sum32()
+	err = persistFooter(&footer, bw)
 	if err != nil {
 		return n, fmt.Errorf("error persisting segment footer: %w", err)
 	}
